@@ -787,9 +787,24 @@ func nearValue(r *RNG, leaf *Node, idc *int) *AV {
 		case 3:
 			return avFloat(float64(r.Intn(5)) + 0.5)
 		case 4:
+			// an object where a scalar is expected; its keys are names real payloads use (credentials, ids, the names the
+			// engine itself uses in diagnostics), one level or two deep
 			o := avObj()
 			if r.Chance(1, 2) {
 				o.Set("a", avInt(1))
+			}
+			for n := r.Intn(4); n > 0; n-- {
+				k := pick(r, commonKeys)
+				switch r.Intn(4) {
+				case 0:
+					in := avObj()
+					in.Set(pick(r, commonKeys), avStr("hunter2"))
+					o.Set(k, in)
+				case 1:
+					o.Set(k, avInt(int64(r.Intn(100))))
+				default:
+					o.Set(k, avStr(pick(r, []string{"hunter2", "bob", "x", "Bearer abc"})))
+				}
 			}
 			return o
 		case 5:
@@ -1075,6 +1090,10 @@ func addDecoys(r *RNG, obj *AV, paths [][]string, val func() *AV) {
 		}
 	}
 }
+
+// commonKeys: attribute names of real payloads (what a "helpful" special case is most likely to be keyed on)
+var commonKeys = []string{"password", "passwd", "secret", "token", "api_key", "apikey", "authorization", "Password", "accessToken", "id", "name", "type", "value", "key",
+	"err", "msg", "path", "operation", "attr_path", "rule_operand", "object_path_operand", "$ref", "__proto__", "length", "items", "email", "user", "credentials"}
 
 // ObjOpts steers how an object is drawn for a rule.
 type ObjOpts struct {
